@@ -8,8 +8,10 @@
    and of the engine conventions of harness/vsim.h (vsim_proxy::step): step counter, repeated
    step at a run boundary, total forces of the same step or of the previous step including the
    engine's copy of the Colvars forces.
-   Variables are scalar with a zero Jacobian term (distanceZ).  Definitions only; generic over the
-   numeric carrier.  Vectors indexed by the variable are lists read with [vget] (default 0) and
+   Variables are scalar; the Jacobian force fj of each variable (colvar::collect_cvc_Jacobians: kT times the
+   Jacobian derivative of the component, 0 for distanceZ, 2kT/r for distance) is an input of every step.
+   The model mirrors the tree with the fix commits of branch fix-C04 (see props/C04/NOTES.md).
+   Definitions only; generic over the numeric carrier.  Vectors indexed by the variable are lists read with [vget] (default 0) and
    built with [vbuild nd], so that every vector the model builds has exactly nd components. *)
 From Coq Require Import ZArith List Bool.
 From CV Require Import Base.Num.
@@ -41,22 +43,28 @@ Section ABF.
     c_nd : nat;                       (* number of variables *)
     c_lower : vec; c_width : vec; c_nx : list Z; c_periodic : list bool;   (* grid of samples/gradients *)
     c_full : Z; c_min : Z;            (* fullSamples, minSamples *)
-    c_apply : bool;                   (* applyBias   (f_cvb_apply_force) *)
     c_update : bool;                  (* updateBias  (f_cvb_history_dependent) *)
     c_cap : bool; c_maxf : vec;       (* maxForce given; its values *)
     c_szd : bool;                     (* stepZeroData (f_cvb_step_zero_data) *)
     c_same_step : bool;               (* proxy->total_forces_same_step(), hence f_cv_total_force_current_step *)
-    c_subtract : list bool            (* subtractAppliedForce of each variable *)
+    c_subtract : list bool;           (* subtractAppliedForce of each variable *)
+    c_hidej : bool;                   (* hideJacobian of the ABF bias (f_cv_hide_Jacobian on each of its variables) *)
+    c_other : list bool;              (* another bias that applies forces is attached to the variable *)
+    c_scaled : bool;                  (* scaledBiasingForce (f_cvb_scale_biasing_force) *)
+    c_sfac : idx -> T                 (* scaledBiasingForceFactorsGrid: a grid with the geometry of the ABF grids *)
   }.
+
 
   Record abf_state := mkSt {
     s_cnt : idx -> Z;                 (* samples   (colvar_grid_count) *)
     s_sum : idx -> vec;               (* gradients (colvar_grid_gradient::data: minus the summed forces) *)
     s_bin : idx; s_fbin : idx;        (* bin, force_bin *)
     s_fabf : vec;                     (* colvar_forces of the ABF bias (last force it computed) *)
+    s_fprev : vec;                    (* previous_colvar_forces: the force the ABF bias last applied (scaled) *)
     s_ft : vec;                       (* colvar::ft of each variable *)
     s_fold : vec;                     (* colvar::f_old of each variable *)
     s_eng : vec;                      (* engine: force that acted on each variable at the previous step *)
+    s_fj : vec;                       (* colvar::fj of each variable as left by the previous step *)
     s_rel : Z;                        (* cvm::step_relative() *)
     s_started : bool                  (* engine: a step was already made *)
   }.
@@ -64,13 +72,22 @@ Section ABF.
   Record abf_in := mkIn {
     i_x : vec;                        (* variable values at this step *)
     i_e : vec;                        (* engine's own force on each variable at this configuration *)
-    i_o : vec;                        (* force applied to each variable by the other biases at this step *)
-    i_boundary : bool                 (* this step repeats the previous one (new run statement) *)
+    i_o : vec;                        (* force applied to each variable by the other biases at this step (read only when c_other) *)
+    i_j : vec;                        (* Jacobian force fj of each variable at this configuration *)
+    i_boundary : bool;                (* this step repeats the previous one (new run statement) *)
+    i_apply : bool                    (* applyBias (f_cvb_apply_force) at this step: the configuration value, or what
+                                         `cv bias <name> set apply_force 0|1` left *)
   }.
+
+  (* f_cv_apply_force of variable k: enabled (through require_feature_children(f_cvb_apply_force, ...)) while
+     a bias that applies forces uses the variable.  colvarmodule::update_colvar_forces calls
+     communicate_forces() only for such variables: otherwise colvar::f never reaches the atoms *)
+  Definition cvapply (c : abf_cfg) (i : abf_in) (k : nat) : bool := i_apply i || bget (c_other c) k.
 
   Record abf_out := mkOut {
     o_bin : idx;                      (* bin of this step *)
-    o_fabf : vec;                     (* ABF force computed at this step *)
+    o_fabf : vec;                     (* ABF force computed at this step (colvar_forces) *)
+    o_fapp : vec;                     (* ABF force applied at this step: times the scaledBiasingForce factor *)
     o_f : vec;                        (* total force applied by Colvars to each variable (colvar::f) *)
     o_rel : Z; o_cont : bool;         (* step_relative, simulation_continuing at this step *)
     o_tf : vec                        (* colvar::ft_reported *)
@@ -96,16 +113,22 @@ Section ABF.
          then ndiv O (nsub O (nofZ O w) (nofZ O (c_min c))) (nmul O (nofZ O w) (nofZ O (c_full c - c_min c)))
          else ndiv O (n1 O) (nofZ O w).
 
-  (* value_output_smoothed(ix, false): fact = weight > 0 ? 1/weight : 0; fact * data *)
+  (* value_output / value_output_smoothed(ix, false): fact = weight > 0 ? 1/weight : 0; fact * data *)
   Definition inv_weight (w : Z) : T := if 0 <? w then ndiv O (n1 O) (nofZ O w) else n0 O.
 
-  (* colvar_grid_gradient::average(false), only called when nd = 1 *)
+  (* colvar_grid_gradient::average(true): the grid average of the SMOOTHED estimates
+     (value_output_smoothed(ix, true) = smooth_inverse_weight(count) * data); only called when nd = 1 *)
   Definition average (c : abf_cfg) (cnt : idx -> Z) (sum : idx -> vec) : T :=
     let n := zget (c_nx c) 0 in
     if n =? 0 then n0 O
-    else ndiv O (fold_left (fun acc i => nadd O acc (nmul O (inv_weight (cnt [i])) (vget (sum [i]) 0)))
+    else ndiv O (fold_left (fun acc i => nadd O acc (nmul O (smooth_inverse_weight c (cnt [i])) (vget (sum [i]) 0)))
                            (zrange n) (n0 O))
                 (nofZ O n).
+
+  (* colvar_grid_gradient::value_output: the stored estimate of the free-energy gradient written to the
+     state / .grad files: data / count, 0 in a bin without samples *)
+  Definition grad_out (cnt : idx -> Z) (sum : idx -> vec) (b : idx) (k : nat) : T :=
+    if 0 <? cnt b then ndiv O (vget (sum b) k) (nofZ O (cnt b)) else n0 O.
 
   (* the cap of calc_biasing_force *)
   Definition cap1 (m f : T) : T :=
@@ -130,20 +153,30 @@ Section ABF.
   (* colvar::collect_cvc_total_forces: same step -> at every step from this step's atomic forces;
      otherwise only when step_relative > 0, from the forces the engine kept from the previous step.
      f_cv_total_force_calc is requested by the ABF bias when it is updated, or by subtractAppliedForce *)
+  (* `ft += fj` unless hideJacobian and the compensating force -fj is not part of the measured force
+     (subtractAppliedForce removes it with the applied force; same-step total forces never contain it;
+     a variable without f_cv_apply_force never applied it).
+     In the lagged convention fj is still the one of the previous step (collect_cvc_total_forces runs
+     before collect_cvc_Jacobians) *)
+  Definition addj (c : abf_cfg) (i : abf_in) (k : nat) : bool :=
+    negb (c_hidej c && (bget (c_subtract c) k || c_same_step c || negb (cvapply c i k))).
   Definition st_ft0 (c : abf_cfg) (s : abf_state) (i : abf_in) : vec :=
     vbuild (c_nd c) (fun k =>
       if c_update c || bget (c_subtract c) k
-      then (if c_same_step c then vget (i_e i) k
-            else if 0 <? fst (st_clk s i) then vget (s_eng s) k else vget (s_ft s) k)
+      then (if c_same_step c
+            then (if addj c i k then nadd O (vget (i_e i) k) (vget (i_j i) k) else vget (i_e i) k)
+            else if 0 <? fst (st_clk s i)
+                 then (if addj c i k then nadd O (vget (s_eng s) k) (vget (s_fj s) k) else vget (s_eng s) k)
+                 else vget (s_ft s) k)
       else vget (s_ft s) k).
 
   (* colvar::calc_colvar_properties: if subtractAppliedForce and not same step:
-     if (ft.norm2() > 0.0) ft -= f_old *)
+     if (step_relative() > 0) ft -= f_old      (the total force was collected at this step) *)
   Definition st_ft (c : abf_cfg) (s : abf_state) (i : abf_in) : vec :=
     if c_same_step c then st_ft0 c s i
     else vbuild (c_nd c) (fun k =>
            let t := vget (st_ft0 c s i) k in
-           if bget (c_subtract c) k && nltb O (n0 O) (nmul O t t)
+           if bget (c_subtract c) k && (0 <? fst (st_clk s i))
            then nsub O t (vget (s_fold s) k) else t).
 
   (* colvarbias_abf::update, part I *)
@@ -157,11 +190,11 @@ Section ABF.
     && c_update c                                 (* is_enabled(f_cvb_history_dependent) *)
     && ((0 <? rel) || c_same_step c)              (* step_relative() > 0 || total_forces_same_step() *)
     && index_ok c (st_fbin c s i).                (* samples->index_ok(force_bin) *)
-  (* update_system_force *)
+  (* update_system_force: total force minus the force the ABF bias applied at the previous step *)
   Definition st_sysf (c : abf_cfg) (s : abf_state) (i : abf_in) : vec :=
     vbuild (c_nd c) (fun k =>
       if bget (c_subtract c) k || c_same_step c then vget (st_ft c s i) k
-      else nsub O (vget (st_ft c s i) k) (vget (s_fabf s) k)).
+      else nsub O (vget (st_ft c s i) k) (vget (s_fprev s) k)).
   (* gradients->acc_force(force_bin, system_force) *)
   Definition st_cnt (c : abf_cfg) (s : abf_state) (i : abf_in) : idx -> Z :=
     if st_doacc c s i
@@ -175,30 +208,40 @@ Section ABF.
     else s_sum s.
   (* part II *)
   Definition st_fabf (c : abf_cfg) (s : abf_state) (i : abf_in) : vec :=
-    if c_apply c && index_ok c (st_bin c i)
+    if i_apply i && index_ok c (st_bin c i)
     then calc_biasing_force c (st_cnt c s i) (st_sum c s i) (st_bin c i)
     else vzero (c_nd c).
-  (* colvar::update_forces_energy: f = fb = sum of the biases' forces; end_of_step: f_old = f *)
+  (* colvar::update_forces_energy: f = fb = sum of the biases' forces, minus fj with hideJacobian when the
+     variable applies forces; end_of_step: f_old = f *)
+  (* colvarbias::communicate_forces: the force handed to the variables is colvar_forces times the factor
+     read from the scaling grid at the current bin (1 outside that grid or without scaledBiasingForce);
+     it is recorded in previous_colvar_forces *)
+  Definition sfac (c : abf_cfg) (b : idx) : T := if c_scaled c && index_ok c b then c_sfac c b else n1 O.
+  Definition st_fapp (c : abf_cfg) (s : abf_state) (i : abf_in) : vec :=
+    vbuild (c_nd c) (fun k => nmul O (vget (st_fabf c s i) k) (sfac c (st_bin c i))).
+  Definition oeff (c : abf_cfg) (i : abf_in) (k : nat) : T := if bget (c_other c) k then vget (i_o i) k else n0 O.
   Definition st_f (c : abf_cfg) (s : abf_state) (i : abf_in) : vec :=
-    vbuild (c_nd c) (fun k => nadd O (vget (st_fabf c s i) k) (vget (i_o i) k)).
+    vbuild (c_nd c) (fun k =>
+      let fb := nadd O (vget (st_fapp c s i) k) (oeff c i k) in
+      if c_hidej c && cvapply c i k then nsub O fb (vget (i_j i) k) else fb).
   Definition st_fold (c : abf_cfg) (s : abf_state) (i : abf_in) : vec :=
     vbuild (c_nd c) (fun k => if bget (c_subtract c) k then vget (st_f c s i) k else vget (s_fold s) k).
-  (* colvar::communicate_forces hands f * integer_power(value, 0) to the component, and
-     cvm::integer_power(x, n) returns 0 when x == 0.0: the atoms receive no force when the value
-     of the variable is exactly zero.  engine: prev_total = eforce + force received from Colvars *)
+  (* colvar::communicate_forces hands f (times integer_power(value, 0) = 1) to the component, for the
+     variables that have f_cv_apply_force.  engine: prev_total = eforce + force received from Colvars *)
   Definition st_eng (c : abf_cfg) (s : abf_state) (i : abf_in) : vec :=
-    vbuild (c_nd c) (fun k => nadd O (vget (i_e i) k)
-                                (if neqb O (vget (i_x i) k) (n0 O) then n0 O else vget (st_f c s i) k)).
+    vbuild (c_nd c) (fun k => if cvapply c i k then nadd O (vget (i_e i) k) (vget (st_f c s i) k) else vget (i_e i) k).
+  (* colvar::collect_cvc_Jacobians *)
+  Definition st_fj (c : abf_cfg) (i : abf_in) : vec := vbuild (c_nd c) (fun k => vget (i_j i) k).
 
   Definition abf_step (c : abf_cfg) (s : abf_state) (i : abf_in) : abf_state * abf_out :=
-    (mkSt (st_cnt c s i) (st_sum c s i) (st_bin c i) (st_bin c i) (st_fabf c s i) (st_ft c s i)
-          (st_fold c s i) (st_eng c s i) (fst (st_clk s i)) true,
-     mkOut (st_bin c i) (st_fabf c s i) (st_f c s i) (fst (st_clk s i)) (snd (st_clk s i)) (st_ft c s i)).
+    (mkSt (st_cnt c s i) (st_sum c s i) (st_bin c i) (st_bin c i) (st_fabf c s i) (st_fapp c s i) (st_ft c s i)
+          (st_fold c s i) (st_eng c s i) (st_fj c i) (fst (st_clk s i)) true,
+     mkOut (st_bin c i) (st_fabf c s i) (st_fapp c s i) (st_f c s i) (fst (st_clk s i)) (snd (st_clk s i)) (st_ft c s i)).
 
   Definition abf_init (c : abf_cfg) : abf_state :=
     let nd := c_nd c in
     mkSt (fun _ => 0) (fun _ => vzero nd) (repeat 0 nd) (repeat 0 nd)
-         (vzero nd) (vzero nd) (vzero nd) (vzero nd) 0 false.
+         (vzero nd) (vzero nd) (vzero nd) (vzero nd) (vzero nd) (vzero nd) 0 false.
 
   Fixpoint abf_run_from (c : abf_cfg) (s : abf_state) (h : list abf_in) : abf_state * list abf_out :=
     match h with
@@ -209,22 +252,43 @@ Section ABF.
     end.
   Definition abf_run (c : abf_cfg) (h : list abf_in) := abf_run_from c (abf_init c) h.
 
+  (* inputPrefix: colvarbias_abf::read_gradients_samples adds the counts of the .count file to `samples` and,
+     for the .grad file, gradient * (count read) to `gradients` (colvar_grid_gradient::value_input with add).
+     One data set per prefix of the inputPrefix list, added in order. *)
+  Definition dataset := ((idx -> Z) * (idx -> vec))%type.
+  Definition abf_add_data (c : abf_cfg) (s : abf_state) (d : dataset) : abf_state :=
+    mkSt (fun b => s_cnt s b + fst d b)
+         (fun b => vbuild (c_nd c) (fun k => nadd O (vget (s_sum s b) k) (nmul O (vget (snd d b) k) (nofZ O (fst d b)))))
+         (s_bin s) (s_fbin s) (s_fabf s) (s_fprev s) (s_ft s) (s_fold s) (s_eng s) (s_fj s) (s_rel s) (s_started s).
+  Definition abf_init_data (c : abf_cfg) (l : list dataset) : abf_state :=
+    fold_left (abf_add_data c) l (abf_init c).
+  Definition abf_run_data (c : abf_cfg) (l : list dataset) (h : list abf_in) :=
+    abf_run_from c (abf_init_data c l) h.
+
   (* ------------------------------------------------------------------------------------------
      Specification: the attributed samples of a history.
      A trace is the history zipped with what Colvars applied at each step. *)
   Definition trace := list (abf_in * abf_out).
 
-  (* total force exerted on variable k at a step, as the engine measures it *)
+  (* force exerted by the atoms on variable k at a step, as the engine measures it *)
   Definition measured (c : abf_cfg) (io : abf_in * abf_out) (k : nat) : T :=
     if c_same_step c then vget (i_e (fst io)) k      (* measured before Colvars adds its forces *)
-    else nadd O (vget (i_e (fst io)) k) (vget (o_f (snd io)) k).  (* engine force + every Colvars force of that step *)
+    else if cvapply c (fst io) k then nadd O (vget (i_e (fst io)) k) (vget (o_f (snd io)) k)  (* engine force + every Colvars force of that step *)
+    else vget (i_e (fst io)) k.                      (* the variable hands no force to the atoms *)
   (* the part of it that Colvars itself was applying at that step and that the sample excludes:
-     the ABF force; with subtractAppliedForce every force applied by Colvars to the variable *)
+     the ABF force (and, with hideJacobian, the compensating force -fj that the ABF bias asks the variable
+     to apply); with subtractAppliedForce every force applied by Colvars to the variable *)
   Definition own (c : abf_cfg) (io : abf_in * abf_out) (k : nat) : T :=
     if c_same_step c then n0 O
-    else if bget (c_subtract c) k then vget (o_f (snd io)) k else vget (o_fabf (snd io)) k.
+    else if negb (cvapply c (fst io) k) then n0 O
+    else if bget (c_subtract c) k then vget (o_f (snd io)) k
+    else if c_hidej c then nsub O (vget (o_fapp (snd io)) k) (vget (i_j (fst io)) k)
+    else vget (o_fapp (snd io)) k.
+  (* the Jacobian term of the total force (geometric entropy), which hideJacobian removes from the estimate *)
+  Definition jac (c : abf_cfg) (io : abf_in * abf_out) (k : nat) : T :=
+    if c_hidej c then n0 O else vget (i_j (fst io)) k.
   Definition sample_force (c : abf_cfg) (io : abf_in * abf_out) : vec :=
-    vbuild (c_nd c) (fun k => nsub O (measured c io k) (own c io k)).
+    vbuild (c_nd c) (fun k => nadd O (nsub O (measured c io k) (own c io k)) (jac c io k)).
 
   (* (bin occupied when the force was exerted, sample force, (step_relative, continuing) of the step
      at which the engine delivers that force) *)
@@ -261,5 +325,6 @@ Section ABF.
   Definition fsum_of (k : nat) (b : idx) (S : list (idx * vec)) : T :=
     gsum (map (fun v => vget v k) (samples_in b S)).
   (* the trace of a history: the history zipped with what the model reports at each step *)
-  Definition trace_of (c : abf_cfg) (h : list abf_in) : trace := combine h (snd (abf_run c h)).
+  Definition trace_from (c : abf_cfg) (s : abf_state) (h : list abf_in) : trace := combine h (snd (abf_run_from c s h)).
+  Definition trace_of (c : abf_cfg) (h : list abf_in) : trace := trace_from c (abf_init c) h.
 End ABF.
